@@ -35,13 +35,17 @@ def selftest(ctx, cfgs):
         raise RuntimeError("binding self-test failed: an encoder that alters one sample was not flagged")
     good = cc.selftest_runs(cfgs, lambda c: c["mode"] == "hq_lossless")
     bad0, _, _ = cc.judge(good)
-    clean = [b for b in bad0 if b["clause"].startswith("C04.")]
+    dirty = set(b["line"] for b in bad0 if b["clause"].startswith("C04."))
     probe = [dict(r) for r in good]
-    probe[0] = dict(probe[0], pics=[dict(probe[0]["pics"][0], equal=False)] + probe[0]["pics"][1:])
-    bad1, _, _ = cc.judge(probe)
-    if clean or not any(b["clause"] == "C04.Exact" and b["line"] == 1 for b in bad1):
-        raise RuntimeError("binding self-test failed: corrupted 'equal' field not rejected (or clean run rejected: %s)" % clean)
-    return {"mutant": "picture_encode given a picture with one altered sample (in-process monkeypatch)", "runs_flagged": len(hit), "corrupted_field": "pics[0].equal=false rejected with C04.Exact"}
+    tgt = next((i for i, r in enumerate(probe) if r["pics"] and (i + 1) not in dirty), None)
+    note = "skipped: every baseline run already violates C04"
+    if tgt is not None:
+        probe[tgt] = dict(probe[tgt], pics=[dict(probe[tgt]["pics"][0], equal=False)] + probe[tgt]["pics"][1:])
+        bad1, _, _ = cc.judge(probe)
+        if not any(b["clause"] == "C04.Exact" and b["line"] == tgt + 1 for b in bad1):
+            raise RuntimeError("binding self-test failed: corrupted 'equal' field not rejected")
+        note = "pics[0].equal=false rejected with C04.Exact"
+    return {"mutant": "picture_encode given a picture with one altered sample (in-process monkeypatch)", "runs_flagged": len(hit), "corrupted_field": note}
 
 
 def applies(rec):
